@@ -249,6 +249,10 @@ func c04Main(args []string) {
 			kind := faultKind(spec)
 			sum.Injected[kind]++
 			bad, reason, und := unreadable(text)
+			if und && !strings.HasPrefix(reason, goldPanic) {
+				sum.Undecided++ // e.g. a BOM in front of a readable document: either answer is acceptable
+				return
+			}
 			if und {
 				// json-gold itself panics on this value: it can neither be said to accept nor to reject it in an
 				// orderly way. An error or a panic of the entry point are both tolerated here, but a VERDICT is
